@@ -27,23 +27,16 @@ SlotLen(t) == IF IsPtr(t) THEN 1 ELSE IF CtSize(t) < FfiArg THEN FfiArg ELSE CtS
 
 Put(b, bytes) == TLCEval([i \in 1..Len(b) |-> IF i <= Len(bytes) THEN bytes[i] ELSE b[i]])
 
-\* how many leading fields of a struct value convert (a failing conversion has written those)
-RECURSIVE GoodPrefix(_, _, _)
-GoodPrefix(ts, vs, i) == IF i > Len(vs) \/ i > Len(ts) THEN i - 1
-                         ELSE IF ConvertItem(ts[i], vs[i]).ok THEN GoodPrefix(ts, vs, i + 1) ELSE i - 1
-PartialStruct(b, t, v) ==
-    IF v.k \in {"list"} /\ Len(v.items) <= Len(t.fields)
-    THEN LET n == GoodPrefix(t.fields, v.items, 1)
-             cs == [i \in 1..n |-> ConvertItem(t.fields[i], v.items[i]).c]
-         IN Put(b, FlatFields(SubSeq(t.fields, 1, n), cs, 1))
-    ELSE b
-
 \* convert_from_object_fficallback(result, ctype, pyobj, encode_result_for_libffi), :6076
 \* returns [ok, b]: success flag and the buffer afterwards
 FfiCb(b, t, v, widen) ==
     LET r == ConvRes(t, v)
-        plain == IF r.ok THEN [ok |-> TRUE, b |-> Put(b, ImgOf(t, r.c))]
-                 ELSE [ok |-> FALSE, b |-> IF t.k = "struct" THEN PartialStruct(b, t, v) ELSE b]
+        \* at "skip:" a struct result is zeroed first (b07fef6), then the initializer's fields are
+        \* written one by one; before that fix the fields not named kept the buffer's garbage
+        st == StructStore(b, t, v, Variant # "struct_nozero")
+        plain == IF t.k = "struct" THEN [ok |-> st.ok, b |-> st.b]
+                 ELSE IF r.ok THEN [ok |-> TRUE, b |-> Put(b, ImgOf(t, r.c))]
+                 ELSE [ok |-> FALSE, b |-> b]
     IN
     IF CtSize(t) >= FfiArg THEN plain
     ELSE IF t.k = "void" THEN [ok |-> r.ok, b |-> b]
